@@ -68,6 +68,28 @@ func (s *FaultStore) begin(kind string) (int, *Fault) {
 		return idx, nil
 	}
 	if f, ok := s.Faults[idx]; ok {
+		// fault kinds are assigned without knowing the call kind; map to the
+		// closest kind that applies to this call
+		switch kind {
+		case "list":
+			if f.Kind == "short_read" || f.Kind == "short_upload" || f.Kind == "mid_error" {
+				f.Kind = "iter_error"
+			}
+		case "open":
+			if f.Kind == "short_upload" {
+				f.Kind = "short_read"
+			} else if f.Kind == "iter_error" {
+				f.Kind = "fail_before"
+			}
+		case "write":
+			if f.Kind == "short_read" || f.Kind == "mid_error" || f.Kind == "iter_error" {
+				f.Kind = "short_upload"
+			}
+		case "delete", "deleteall":
+			if f.Kind != "fail_after" {
+				f.Kind = "fail_before"
+			}
+		}
 		return idx, &f
 	}
 	return idx, nil
